@@ -681,8 +681,8 @@ class Typer:
         if tag == 'Σ':
             s.ty(k[2]); return NUM
         if tag in ('cmp', 'and', 'or', 'not', 'in', 'is', 'any', 'all'):
-            for a in k[2:]:
-                if isinstance(a, tuple): s.ty(a)
+            ts_ = [s.ty(a) for a in k[2:] if isinstance(a, tuple)]
+            if tag in ('cmp', 'not') and len(ts_) == 1 and ts_[0][0] == 'arr': return ts_[0]        # an element-wise test of an array: a mask on the same axes
             return NUM
         if tag == 'slice': return ('slice', s.ty(k[2]) if k[2] is not None else None, s.ty(k[3]) if k[3] is not None else None)
         if tag == 'loop':
